@@ -32,6 +32,12 @@ impl Header {
   /// What is the value kind of this object
   #[inline]
   pub fn kind(&self) -> ObjectKind {
+    #[cfg(feature = "verif")]
+    crate::verif::check_obj_header(
+      self as *const Header as *const u8,
+      &self.kind as *const ObjectKind as *const u8,
+    );
+
     self.kind
   }
 }
@@ -39,6 +45,12 @@ impl Header {
 impl Mark for Header {
   #[inline]
   fn mark(&self) -> bool {
+    #[cfg(feature = "verif")]
+    crate::verif::check_obj_header(
+      self as *const Header as *const u8,
+      &self.kind as *const ObjectKind as *const u8,
+    );
+
     self.marked.swap(true, Ordering::Release)
   }
 }
